@@ -52,6 +52,7 @@ def Event.str (e : Event) : String :=
 inductive LArg where
   | num (n : Int)
   | id (ns : String) (m : Nat)     -- a model-side identifier in namespace `ns`
+  | ne (n : Int)                   -- any value (number or token) other than `n`; `ne (-1)` = "Some(_)"
   | any
   deriving Repr, BEq, Inhabited
 
@@ -70,6 +71,7 @@ structure Label where
 def LArg.str : LArg → String
   | .num n => toString n
   | .id ns m => s!"{ns}#{m}"
+  | .ne n => s!"≠{n}"
   | .any => "_"
 
 def Label.str (l : Label) : String :=
@@ -93,6 +95,8 @@ def matchArg (bj : Bij) : LArg → Tok → Option Bij
   | .num n, .num m => if n == m then some bj else none
   | .id ns m, .id s => bj.bind (ns, m) s
   | .id ns m, .num k => bj.bind (ns, m) (toString k)
+  | .ne n, .num m => if n == m then none else some bj
+  | .ne _, .id _ => some bj
   | _, _ => none
 
 def matchLabel (bj : Bij) (l : Label) (e : Event) : Option Bij := do
